@@ -60,6 +60,9 @@ var Seeds = []Seed{
 	{"4k3/8/8/8/4P3/8/8/4K3 b - e3 0 1", "ep no-capturer"},
 	{"k7/8/8/3pP3/8/8/8/3RK3 w - d6 0 1", "ep file-discover"},
 	{"4k3/8/8/r2pPK2/8/8/8/8 w - d6 0 1", "ep rank-pin-king-far-side"},
+	{"8/8/4k3/3pP3/8/8/2q5/K7 w - d6 0 2", "ep only-legal-move"},                                           // the en passant capture is the ONLY legal move (king stalemated, pawn blocked)
+	{"7k/8/p2p4/Pp6/2K5/r7/3q4/8 w - b6 0 2", "ep only-legal-move check"},                                  // ... the only answer to a check by the pawn that has just jumped
+	{"k7/2Q5/8/8/3Pp3/4K3/8/8 b - d3 0 2", "ep only-legal-move"},                                           // ... for Black (all three from the demonstration of seeded change C20n)
 	{"7k/4N2p/4b3/3pP3/8/8/8/BK6 w - d6 0 1", "ep mate-only-by-ep low"},                                    // the en passant capture is the only mate in one (discovered)
 	{"r1bq1r2/pp2n3/4N2k/3pPppP/1b1n2Q1/2N5/PP3PP1/R1B1K2R w KQ g6 0 15", "ep mate-only-by-ep big castle"}, // Gundersen - Faul 1928: 15.hxg6 e.p. mate
 	// promotion edges
@@ -299,7 +302,8 @@ func EnPassantFamily(full bool, emit func(p *ref.Pos)) {
 								if p.Sq[eks] == 0 {
 									p.Sq[eks] = -sign * ref.K
 									if Valid(p) {
-										emit(p)
+										q := *p // (emit may keep the pointer: the king is taken off p again below)
+										emit(&q)
 									}
 									p.Sq[eks] = 0
 									break
